@@ -166,7 +166,8 @@ type verifC10Rec struct {
 //	1: a known BigSize record consumes exactly one minimal varint, whatever
 //	   its declared length says (tlv.DBigSize ignores l);
 //	2: on the non-p2p path an unknown record with declared length >= 2^63
-//	   consumes no bytes (int64 overflow in io.CopyN).
+//	   consumes no bytes (int64 overflow in io.CopyN);
+//	3: both in the same stream.
 func verifC10RefParse(x []byte, known map[uint64]verifC10Kind, p2p bool,
 	lenient int) ([]verifC10Rec, bool, string) {
 
@@ -193,7 +194,7 @@ func verifC10RefParse(x []byte, known map[uint64]verifC10Kind, p2p bool,
 		if p2p && l > 65535 {
 			return nil, false, "too-large"
 		}
-		if k, isKnown := known[t]; lenient == 1 && isKnown &&
+		if k, isKnown := known[t]; lenient&1 != 0 && isKnown &&
 			(k == verifKBig32 || k == verifKBig64) {
 
 			_, n, ok := verifC10RefBigSize(x[pos:])
@@ -204,7 +205,7 @@ func verifC10RefParse(x []byte, known map[uint64]verifC10Kind, p2p bool,
 			last, first = t, false
 			continue
 		}
-		if _, isKnown := known[t]; lenient == 2 && !isKnown && !p2p && l >= 1<<63 {
+		if _, isKnown := known[t]; lenient&2 != 0 && !isKnown && !p2p && l >= 1<<63 {
 			last, first = t, false
 			continue
 		}
@@ -855,11 +856,12 @@ func TestVerifC10TLV(t *testing.T) {
 					// Attribution to an already understood deviation
 					// (the verdict above does not depend on it).
 					attributed := false
-					for _, lv := range []int{1, 2} {
+					for _, lv := range []int{1, 2, 3} {
 						if _, lok, _ := verifC10RefParse(x, kindOf, p2p, lv); lok == acc {
 							attributed = true
 							key = []string{"", "DBigSize-ignores-record-length",
-								"nonp2p-length>=2^63-consumes-nothing"}[lv]
+								"nonp2p-length>=2^63-consumes-nothing",
+								"DBigSize-ignores-record-length+nonp2p-length>=2^63-consumes-nothing"}[lv]
 							break
 						}
 					}
